@@ -87,3 +87,33 @@ Example C07_attribute_nonvacuous : exists st' parsed',
   xpaylen (mkXbst [] [] []) /\ ahas "fixed" (attrs_of c07_attr) = true /\
   kind_of (x_graph st') 1 = KLeaf false /\ parsed' = [].
 Proof. eexists. eexists. split; [vm_compute; reflexivity|]. repeat split; vm_compute; reflexivity. Qed.
+
+(* _repeat, whole structure: the decision it returns (a new node; nothing older is touched) offers only these
+   alternatives -- no occurrence, marked valid exactly when minOccurs = 0; k occurrences of the child with k = minOccurs
+   or k = maxOccurs (unbounded: minOccurs + 1), so minOccurs <= k <= maxOccurs, without any leaf of its own; or
+   minOccurs - 1 occurrences (only when minOccurs > 1) followed by a leaf marked invalid.  For every child, every pair
+   of bounds and every earlier graph. *)
+Theorem C07_repeat_alternatives : forall child mn mx st st' root,
+  child < xlen st -> repeat_node child mn mx st = Ok (st', root) ->
+  let mx' := match mx with None => mn + 1 | Some m => m end in
+  let g := x_graph st' in
+  mn <= mx' /\ root = xlen st /\ root < xlen st' /\ kind_of g root = KDec false true /\
+  (forall a, In a (outs_of g root) -> root < a < xlen st' /\
+     ((kind_of g a = KLeaf (mn =? 0) /\ outs_of g a = []) \/
+      (kind_of g a = KDec true true /\ exists k, outs_of g a = repeat child k /\ (k = mn \/ k = mx') /\ mn <= k <= mx') \/
+      (kind_of g a = KDec true true /\ 1 < mn /\ exists l, outs_of g a = repeat child (mn - 1) ++ [l] /\
+         root < l < length g /\ kind_of g l = KLeaf false /\ outs_of g l = []))) /\
+  (forall m, m < xlen st -> kind_of g m = kind_of (x_graph st) m /\ outs_of g m = outs_of (x_graph st) m).
+Proof.
+  intros child mn mx st st' root Hc H mx' g.
+  destruct (repeat_node_alternatives child mn mx st st' root Hc H) as (Hle & _ & R0 & R1 & R2 & R3 & R4).
+  split; [exact Hle|]. split; [exact R0|]. split; [exact R1|]. split; [exact R2|]. split; [exact R3|exact R4].
+Qed.
+Print Assumptions C07_repeat_alternatives.
+
+(* non-vacuity: minOccurs = 2, maxOccurs = 3 below an existing child gives the four alternatives 0 / 2 / 1+invalid / 3 *)
+Example C07_repeat_nonvacuous : exists st' root,
+  repeat_node 0 2 (Some 3) (fst (xnoop_leaf true None (mkXbst [] [] []))) = Ok (st', root) /\
+  map (fun a => (kind_of (x_graph st') a, outs_of (x_graph st') a)) (outs_of (x_graph st') root) =
+    [(KLeaf false, []); (KDec true true, [0; 0]); (KDec true true, [0; 5]); (KDec true true, [0; 0; 0])].
+Proof. eexists. eexists. split; vm_compute; reflexivity. Qed.
